@@ -63,6 +63,7 @@ class BasicConverter:
         self.dependency_kwargs: dict[str, DependencyT] = {}
         self.all_args = False
         self.all_kwargs = False
+        self.keyword_only: set[str] = set()
         for p in signature.parameters.values():
             if p.kind == inspect.Parameter.POSITIONAL_ONLY:
                 if get_dependency(p.annotation) is not None:
@@ -76,6 +77,8 @@ class BasicConverter:
                     self.dependency_kwargs[p.name] = dep
                     continue
                 self.kwargs[p.name] = p.default
+                if p.kind == inspect.Parameter.KEYWORD_ONLY:
+                    self.keyword_only.add(p.name)
             elif p.kind == inspect.Parameter.VAR_POSITIONAL:
                 self.all_args = True
             elif p.kind == inspect.Parameter.VAR_KEYWORD:
@@ -93,7 +96,11 @@ class BasicConverter:
         kwargs = {name: loaded.pop(name, self.kwargs[name]) for name in self.kwargs}
         if self.all_kwargs:
             kwargs.update(loaded)
-        elif self.all_args:
+        elif self.all_args and loaded:
+            # extra values are passed positionally, so every argument which can be positional
+            # has to be in front of them (otherwise the first extra value would take its place)
+            for name in [name for name in kwargs if name not in self.keyword_only]:
+                args.append(kwargs.pop(name))
             args.extend(loaded.values())
         return (args, kwargs)
 
